@@ -86,6 +86,12 @@ def _cmp(a, op, b, canon):
     # `x < float('inf')` is `not isinf(x)` for the non-negative quantities compared this way
     if isinstance(op, ast.Lt) and is_inf_literal(b):
         return neg(("isinf", ca))
+    if isinstance(op, ast.Gt) and is_inf_literal(a):            # inf > x
+        return neg(("isinf", cb))
+    if isinstance(op, ast.GtE) and is_inf_literal(b):           # x >= inf
+        return ("isinf", ca)
+    if isinstance(op, ast.LtE) and is_inf_literal(a):           # inf <= x
+        return ("isinf", cb)
     if isinstance(op, ast.Lt):
         return ("lt", ca, cb)
     if isinstance(op, ast.Gt):
